@@ -25,7 +25,7 @@ fn c14_salt_is_encoding_of_16_fresh_bytes() {
     let s1 = generate_salt();
     #[allow(static_mut_refs)]
     unsafe {
-        assert!(rm::FILL_CALLS == 1 && rm::DRAWS.len() == 16, "C14.a1 a salt is made of exactly one draw of 16 random bytes");
+        assert!(rm::FILL_CALLS == 1 && rm::DRAWS.len() == 16 && rm::OTHER_DRAWS == 0, "C14.a1 a salt is made of exactly one draw of 16 random bytes");
         assert!(s1.len() == 22, "C14.a2 base64url of 16 bytes has 22 characters");
         let sb = s1.as_bytes();
         let mut i = 0;
@@ -48,7 +48,7 @@ fn c14_two_salts_use_disjoint_draws() {
     let s2 = generate_salt();
     #[allow(static_mut_refs)]
     unsafe {
-        assert!(rm::FILL_CALLS == 2 && rm::DRAWS.len() == 32, "C14.b1 every salt draws its own 16 bytes");
+        assert!(rm::FILL_CALLS == 2 && rm::DRAWS.len() == 32 && rm::OTHER_DRAWS == 0, "C14.b1 every salt draws its own 16 bytes");
         let sb = s2.as_bytes();
         assert!(s2.len() == 22, "C14.b2 length");
         let mut i = 0;
